@@ -13,7 +13,7 @@ func (node *tagFirstofNode) Execute(ctx *ExecutionContext, writer TemplateWriter
 		}
 
 		if val.IsTrue() {
-			if ctx.Autoescape && !arg.FilterApplied("safe") {
+			if ctx.Autoescape && !val.safe && !arg.FilterApplied("safe") { // (markup - a macro's result, the result of escape - is not escaped again)
 				val, err = ApplyFilter("escape", val, nil)
 				if err != nil {
 					return err
